@@ -257,8 +257,28 @@ def build_cases(ctx, tier, g):
 def random_cases(ctx, count):
     rng = ctx.rng
     out = []
+    def smooth():
+        n = 1
+        for pr in (2, 3, 5, 7):
+            n *= pr ** rng.randint(0, 6)
+        while n > 32767:
+            n //= rng.choice([2, 3, 5, 7, 10])
+        return max(1, n)
+
     def rnd_operand():
         r = rng.random()
+        if rng.random() < 0.25:
+            # numbers made of small prime factors below 2^15, and ratios of them: n-ary products and quotients of such operands cancel, so that
+            # intermediate and final results stay representable although partial products of a reordered evaluation would not
+            a, b = smooth() * rng.choice([1, 1, -1]), smooth()
+            if rng.random() < 0.6:
+                return (str(a), Fraction(a))
+            return ("%d/%d" % (a, b), Fraction(a, b))
+        if rng.random() < 0.04:
+            # ratio literals whose written denominator needs 32 bits (the value may still reduce to a representable ratio)
+            d = rng.choice([4294967294, 4294967295, 4000000000, 4294967292, 2147483648, 3000000000])
+            a = rng.choice([1, 2, 4, 14, 6, -2, 1000000])
+            return ("%d/%d" % (a, d), Fraction(a, d))
         if r < 0.35:
             n = rng.choice([rng.randint(-40, 40), rng.randint(-32767, 32767), rng.randint(-2 ** 31, 2 ** 31 - 1), rng.choice([46340, 46341, 65535, 65536, 2 ** 24, 2 ** 24 + 1, 2 ** 30])])
             return (str(n), Fraction(n))
@@ -276,7 +296,7 @@ def random_cases(ctx, count):
         return (txt, Real(f32_bits(v)))
     for _ in range(count):
         op = rng.choice(ARITH + ["floor-quotient", "floor-remainder", "abs", "floor", "ceiling"])
-        k = 1 if op in ("abs", "floor", "ceiling") else (2 if op.startswith("floor-") else (rng.randint(1, 4) if rng.random() > 0.04 else rng.choice([8, 16, 40])))
+        k = 1 if op in ("abs", "floor", "ceiling") else (2 if op.startswith("floor-") else (rng.randint(1, 5) if rng.random() > 0.04 else rng.choice([8, 16, 40])))
         out.append((op, [rnd_operand() for _ in range(k)]))
     return out
 
